@@ -24,18 +24,18 @@ Print Assumptions C15_identical.
 (** Readback: the text EITHER renderer writes for a binary, boolean, signed, unsigned or float
     item whose elements are in range (no deferred error) is read back by the parser as an item
     with the same values (floats: same wire value, NaN payload aside) — wherever the item stands:
-    after any whitespace, followed by any whitespace and a character that starts no comment. *)
+    at any list nesting [dp] the parser admits, after any whitespace, followed by any whitespace and a character that starts no comment. *)
 Theorem C15_readback :
   forall (ffmt : fwidth -> Z -> bytes) (quote : bytes -> bytes) (fparse : fwidth -> bytes -> option Z) (narrow32 : Z -> Z),
     (forall w v, fdom w v = true -> good_tok (ffmt w v) = true) ->
     (forall w v, fdom w v = true -> exists v', fparse w (ffmt w v) = Some v' /\ feq narrow32 w v v') ->
     forall x, value_leaf_item x = true -> dom_item false no_plain x = true ->
     forall text, text = to_sml ffmt quote x \/ text = encode_default ffmt quote x ->
-    forall input pre ws ws' c rest',
-      Forall is_ws ws -> Forall is_ws ws' -> follow c ->
+    forall input dp pre ws ws' c rest',
+      dp <= max_list_depth -> Forall is_ws ws -> Forall is_ws ws' -> follow c ->
       input = pre ++ ws ++ text ++ ws' ++ c :: rest' ->
       exists x' q,
-        parse_item fparse input 1 (mkst pre (ws ++ text ++ ws' ++ c :: rest')) = POk x' (mkst q (c :: rest'))
+        parse_item fparse input 1 dp (mkst pre (ws ++ text ++ ws' ++ c :: rest')) = POk x' (mkst q (c :: rest'))
         /\ input = q ++ c :: rest' /\ item_eqv narrow32 x x'.
 Proof. exact readback_both. Qed.
 Print Assumptions C15_readback.
@@ -74,7 +74,7 @@ Example C15_readback_nonvacuous :
   let x := IInt W8 [-9223372036854775808; 9223372036854775807] in
   value_leaf_item x = true /\ dom_item false no_plain x = true /\
   let input := [10; 32] ++ to_sml toy_ffmt toy_quote x ++ [10] ++ [62] in
-  exists st, parse_item toy_fparse input 1 (mkst [] input) = POk x st /\ data st = [62].
+  exists st, parse_item toy_fparse input 1 64 (mkst [] input) = POk x st /\ data st = [62].
 Proof.
   split; [exact toy_ffmt_good|]. split; [exact toy_roundtrip|].
   cbv zeta. split; [reflexivity|]. split; [vm_compute; reflexivity|].
